@@ -2813,17 +2813,6 @@ emit_member_table(arg_t *arg, asn1p_expr_t *expr, asn1c_ioc_table_and_objset_t *
 
 	OUT(",\n");
 	if(C99_MODE) OUT(".tag_mode = ");
-	if((!(expr->expr_type &  ASN_CONSTR_MASK)
-	   || expr->expr_type == ASN_CONSTR_CHOICE)
-	&& expr->tag.tag_class) {
-		if(expr->tag.tag_mode == TM_IMPLICIT)
-		OUT("-1,\t/* IMPLICIT tag at current level */\n");
-		else
-		OUT("+1,\t/* EXPLICIT tag at current level */\n");
-	} else {
-		OUT("0,\n");
-	}
-
 	complex_contents =
 		is_open_type(arg, expr, opt_ioc)
 		|| (expr->expr_type & ASN_CONSTR_MASK)
@@ -2833,6 +2822,25 @@ emit_member_table(arg_t *arg, asn1p_expr_t *expr, asn1c_ioc_table_and_objset_t *
 			&& expr_elements_count(arg, expr))
 		|| (expr->expr_type == ASN_BASIC_INTEGER
 			&& asn1c_type_fits_long(arg, expr) == FL_FITS_UNSIGN);
+
+	if((!(expr->expr_type &  ASN_CONSTR_MASK)
+	   || expr->expr_type == ASN_CONSTR_CHOICE)
+	&& expr->tag.tag_class) {
+		if(expr->tag.tag_mode == TM_IMPLICIT)
+		OUT("-1,\t/* IMPLICIT tag at current level */\n");
+		else if(complex_contents
+			&& !(expr->expr_type & ASN_CONSTR_MASK)
+			&& !is_open_type(arg, expr, opt_ioc))
+		/*
+		 * ENUMERATED and unsigned INTEGER members get a descriptor
+		 * of their own whose tags already start with this tag.
+		 */
+		OUT("0,\t/* EXPLICIT tag is part of the member's type */\n");
+		else
+		OUT("+1,\t/* EXPLICIT tag at current level */\n");
+	} else {
+		OUT("0,\n");
+	}
 	if(C99_MODE) OUT(".type = ");
 
     OUT("&asn_DEF_");
